@@ -119,7 +119,10 @@ def run_many(raws, workers=8):
     return [_observe(r) for r in raws]
   ctxm = multiprocessing.get_context("fork")
   with ctxm.Pool(min(workers, 8)) as pool:
-    return pool.map(_observe, raws, chunksize=25)
+    res = pool.map(_observe, raws, chunksize=25)
+    pool.close()
+    pool.join()
+    return res
 
 
 # ------------------------------------------------------------------------------------------ correspondence
@@ -271,6 +274,8 @@ def search(ctx, hints, broken):
   if len(jobs) >= 1500:
     with multiprocessing.get_context("fork").Pool(8) as pool:
       results = pool.map(_oracle_job, jobs, chunksize=50)
+      pool.close()
+      pool.join()
   else:
     results = [_oracle_job(j) for j in jobs]
   sigs = set()
